@@ -450,6 +450,32 @@ func (fb *fnBounds) postFacts(in ssa.Instruction) []constraint {
 			}
 			return cs
 		}
+		// integer results that are positions in an argument: result < len(argument) (a "not found"
+		// result is a negative constant, for which this holds trivially)
+		if res := callee.Signature.Results(); res.Len() >= 1 {
+			for k := 0; k < res.Len(); k++ {
+				if !isIntType(res.At(k).Type()) {
+					continue
+				}
+				pi, ok := bp.intResultBelowLen(callee, k)
+				if !ok || pi >= len(t.Call.Args) {
+					continue
+				}
+				var rv ssa.Value
+				if res.Len() == 1 {
+					rv = t
+				} else {
+					for _, ref := range *t.Referrers() {
+						if ex, ok := ref.(*ssa.Extract); ok && ex.Index == k {
+							rv = ex
+						}
+					}
+				}
+				if rv != nil {
+					cs = append(cs, gt(fb.lenOf(t.Call.Args[pi], t, 0), linVar(ssaName(rv)), fmt.Sprintf("%s result #%d is a position in its argument #%d (or negative)", callee.Name(), k, pi)))
+				}
+			}
+		}
 		// object invariants re-established by the callee for the objects passed to it
 		for i, prm := range callee.Params {
 			pt, ok := prm.Type().Underlying().(*types.Pointer)
@@ -821,6 +847,7 @@ func (bp *boundsProver) houdiniGlobal(fns []*ssa.Function) {
 		}
 	}
 	for round := 0; round < 30; round++ {
+		bp.resMemo = nil // derived result contracts are proved under the current assumptions: recompute
 		// phi invariants depend on the global assumptions: recompute each round
 		for _, f := range fns {
 			fb := bp.forFn(f)
@@ -923,6 +950,7 @@ func (bp *boundsProver) houdiniGlobal(fns []*ssa.Function) {
 			break
 		}
 	}
+	bp.resMemo = nil
 	for _, f := range fns {
 		fb := bp.forFn(f)
 		fb.phiInv = map[*ssa.Phi][]phiCand{}
@@ -1051,4 +1079,49 @@ func shortVars(s string) string {
 		}
 		s = s[:i] + s[i+j+2:]
 	}
+}
+
+// intResultBelowLen: result #k of fn is, at every return, either a negative constant or provably below
+// the length of one and the same slice/string parameter; returns that parameter's index.
+func (bp *boundsProver) intResultBelowLen(fn *ssa.Function, k int) (int, bool) {
+	key := fmt.Sprintf("%s#%d", fn.String(), k)
+	if bp.resMemo == nil {
+		bp.resMemo = map[string]int{}
+	}
+	if v, ok := bp.resMemo[key]; ok {
+		return v, v >= 0
+	}
+	bp.resMemo[key] = -1
+	fb := bp.forFn(fn)
+	for pi, prm := range fn.Params {
+		kd := kindOf(prm.Type())
+		if kd != KSlice && !isStringType(prm.Type()) {
+			continue
+		}
+		all, n := true, 0
+		for _, b := range fn.Blocks {
+			ret, ok := b.Instrs[len(b.Instrs)-1].(*ssa.Return)
+			if !ok || k >= len(ret.Results) {
+				continue
+			}
+			if c, ok := ret.Results[k].(*ssa.Const); ok && c.Value != nil && c.Int64() < 0 {
+				continue
+			}
+			n++
+			v, okV := fb.linOf(ret.Results[k], ret, 0)
+			if !okV {
+				all = false
+				break
+			}
+			if ok, _ := fb.prove(ret, []constraint{gt(fb.lenOf(prm, ret, 0), v, "result below len(param)")}); !ok {
+				all = false
+				break
+			}
+		}
+		if all && n > 0 {
+			bp.resMemo[key] = pi
+			return pi, true
+		}
+	}
+	return -1, false
 }
